@@ -17,6 +17,7 @@ import vlib, extract
 
 W64 = 1 << 64
 ALPHABET = [0x30, 0x39, 0x61, 0x66, 0x46, 0x67, 0x25, 0x5c, 0x22, 0x2c, 0x20, 0x09, 0x00, 0x3d, 0x2b, 0x2f, 0x80, 0xff]
+ALPHABET6 = [0x30, 0x61, 0x46, 0x25, 0x5c, 0x22, 0x2c, 0x20]     # sub-alphabet used for length 6 (thorough)
 TOKENS = [b"a", b"af", b"A", b"fa", b"%", b"\xff"]
 RM_TOKENS = [b"a", b"af"]
 
@@ -550,7 +551,7 @@ def check_lines(harness, driver, lines, max_fail=8):
         hout.append("<aborted>")
         pos = bad + 1
         aborts += 1
-        if aborts >= 4:
+        if aborts >= 2:
             hout += ["<not-run>"] * (len(lines) - len(hout))
             break
     if driver is None:      # oracle-only run (used while developing / by the mutation tests)
@@ -589,10 +590,11 @@ def _task(args):
     import random
     if kind == "strings":
         prefix, length, full = param
+        ab = ALPHABET if full else ALPHABET6
         lines = []
-        for tail in itertools.product(ALPHABET, repeat=length - len(prefix)):
+        for tail in itertools.product(ab, repeat=length - len(prefix)):
             lines += lines_for_string(bytes(prefix) + bytes(tail), full)
-        n_inputs = len(ALPHABET) ** (length - len(prefix))
+        n_inputs = len(ab) ** (length - len(prefix))
     elif kind == "chars":
         lines = gen_chars(); n_inputs = 256 + 65536 + 5120
     elif kind == "u16":
@@ -623,14 +625,17 @@ class Spec:
         "pctDecodeInPlaceStrict_exact", "pctDecodeInPlaceLenient_exact", "inPlaceStrict_eq_copying",
         "inPlaceLenient_eq_copying", "unquote_exact", "quote_exact", "unquoteSpec_quoteSpec", "equalQuoted_iff",
         "equalCaselessQuoted_exact", "base64ToBinN_exact", "charsEqualCaseless_lower", "equalCaseless_exact",
-        "nofault_parse", "nofault_print", "nofault_codecs", "nofault_inplace", "nofault_compare")]
+        "equalCaselessN_exact", "uint32ToStrx_exact", "strx_print_parse_roundtrip", "hasToken_iff_member", "removeToken_safe_partial",
+        "nofault_parse", "nofault_print", "nofault_codecs", "nofault_inplace", "nofault_compare", "nofault_hasToken")]
     trusted_base = ["Lean 4 kernel", "axioms: propext, Classical.choice, Quot.sound at most (audited per theorem)",
                     "hand-written model lean/Mhd/Model/Str*.lean tied to mhd_str.c by this run's correspondence",
                     "reference specifications in lean/Mhd/Proofs/StrSpec.lean (short recursive functions), cross-checked by the "
                     "independent Python references in tools/props/C17.py",
                     "tools/props/C17.py gen_str (toxdigitvalue table, base64 map, SSIZE_MAX, divisors regenerated)",
                     "harness/h_str.c, gcc, ASan/UBSan"]
-    assumptions = ["configured build: MHD_FAVOR_FAST_CODE, 64-bit size_t, signed char",
+    assumptions = ["the model follows mhd_str.c with build/fixes/F17a-d applied (F12 is already in /repo); until they are "
+                   "committed the check reports the four defects on /repo",
+                   "configured build: MHD_FAVOR_FAST_CODE, 64-bit size_t, signed char",
                    "objects are smaller than 2^62 bytes",
                    "documented call contracts: non-NULL pointers; z-terminated inputs contain a NUL; output buffers of "
                    "MHD_bin_to_hex / MHD_hex_to_bin / MHD_str_unquote have the documented size; tokens contain no NUL, "
@@ -664,8 +669,8 @@ class Spec:
         for L in range(2, maxlen + 1):
             for p in itertools.product(ALPHABET, repeat=2 if L < 5 else 3):
                 T.append(("strings", (p, L, True)))
-        if thorough:   # length 6: every string, output sizes at and next to the exact need only
-            for p in itertools.product(ALPHABET, repeat=3):
+        if thorough:   # length 6 over the 8-byte sub-alphabet, output sizes at and next to the exact need only
+            for p in itertools.product(ALPHABET6, repeat=2):
                 T.append(("strings", (p, 6, False)))
         nrand = (40 if thorough else 4) * (3 if boost else 1)
         for i in range(nrand):
@@ -705,7 +710,8 @@ class Spec:
                                       "MHD_uint16_to_str: 65536 values x size 0..6"],
                "bounded_exhaustive": "every string function on all strings of length <= %d over the %d-byte alphabet %s, "
                                      "every output size from 0 to max+1%s" % (self.maxlen, len(ALPHABET), bytes(ALPHABET).hex(),
-                                     "; length 6: all strings, output sizes need-1/need/max only" if self.maxlen_core > self.maxlen else ""),
+                                     ("; length 6: all strings over the sub-alphabet %s, output sizes need-1/need/max only"
+                                      % bytes(ALPHABET6).hex()) if self.maxlen_core > self.maxlen else ""),
                "inputs": {k: {"inputs": v[0], "calls": v[1]} for k, v in counts.items()},
                "per_function": {op: {"calls": a, "nonzero_result": b, "outside_documented_domain(model-vs-code only)": c}
                                 for op, (a, b, c) in sorted(stats.items())},
